@@ -191,6 +191,15 @@ func Yield() {}
 // Atomic runs f without scheduling points. (intercepted)
 func Atomic(f func()) { f() }
 
+// SharedWrites runs f and returns how many stores hit memory that was reachable from root before f
+// started (fields, slice elements, map entries, transitively). Natively it runs f and returns 0. (intercepted)
+// It turns "this object is shared by several goroutines without a lock, so using it must not write to it"
+// into an assertion that needs no interleaving.
+func SharedWrites(root any, f func()) int {
+	f()
+	return 0
+}
+
 // Now returns the logical clock in ns. (intercepted)
 func Now() int64 { return 0 }
 
